@@ -54,7 +54,7 @@ pub fn snap_len(kind: &str, len: usize) -> usize {
 }
 
 fn base_info(kind: &'static str, len: usize, salt: u64) -> SrcInfo {
-    SrcInfo { kind, len, base_addr: 0, stride: 0, range_start: 0, salt, consuming: is_consuming(kind), adaptor: is_adaptor(kind), wrapped: is_wrapped(kind), exact_len: true, start_pos: 0 }
+    SrcInfo { kind, len, base_addr: 0, stride: 0, range_start: 0, salt, consuming: is_consuming(kind), adaptor: is_adaptor(kind), wrapped: is_wrapped(kind), exact_len: true, start_pos: 0, non_fused: false }
 }
 
 /// A computation that is generic over the concrete iterator type.
@@ -194,13 +194,14 @@ pub fn with_kind<V: Visitor>(kind: &str, len: usize, salt: u64, hint: Hint, rang
         }
         "iter_owned" => {
             let mut info = base_info(kind, len, salt);
-            info.exact_len = hint == Hint::Exact;
+            info.exact_len = hint.is_exact();
+            info.non_fused = hint.non_fused() && kind == "iter_owned";
             let p = ProbeOwned { pos: 0, len, salt, hint };
             (v.visit(p.into_con_iter(), &info), info, viol)
         }
         "iter_ref" | "cloned_iter" | "filter_iter" => {
             let mut info = base_info(kind, len, salt);
-            info.exact_len = hint == Hint::Exact && kind != "filter_iter";
+            info.exact_len = hint.is_exact() && kind != "filter_iter";
             let src = mk_tk_vec(len, salt);
             info.base_addr = src.as_ptr() as usize;
             info.stride = std::mem::size_of::<Tk>();
@@ -230,7 +231,8 @@ pub fn with_kind<V: Visitor>(kind: &str, len: usize, salt: u64, hint: Hint, rang
         }
         "copied_iter" => {
             let mut info = base_info(kind, len, salt);
-            info.exact_len = hint == Hint::Exact;
+            info.exact_len = hint.is_exact();
+            info.non_fused = hint.non_fused() && kind == "iter_owned";
             let src = mk_u64_vec(len, salt);
             let out = v.visit(ProbeRefU64 { src: &src, pos: 0, hint }.into_con_iter().copied(), &info);
             check_u64_source(&mut viol, &src, &info);
